@@ -2,6 +2,7 @@ SPECIFICATION Spec
 CONSTANTS
   MaxBytes = 2
   Cuts = {"transit", "stall"}
+  AcceptorCloseKillsSocket = FALSE
   ForwarderWaitsOnNode = FALSE
   AcceptLeavesDeadline = TRUE
   MaxNotices = 1
